@@ -2,6 +2,7 @@ import CJ.Drv.Loop
 import CJ.Drv.Registry
 import CJ.Drv.RegistryConc
 import CJ.Drv.PipelineMsg
+import CJ.Drv.ZmqMerge
 /-! Driver for C09: the sequential registry model and its concurrent extension. -/
 open CJ.Drv
 
@@ -9,4 +10,6 @@ def main : IO Unit := runDriver fun
   | "registry" :: args => Registry.handle args
   | "conc" :: args => RegistryConc.handle args
   | "pipe" :: args => PipelineMsg.handle args
+  | "zmqmerge" :: args => ZmqMerge.handle ("zmqmerge" :: args)
+  | "zmqrun" :: args => ZmqMerge.handle ("zmqrun" :: args)
   | _ => none
